@@ -373,6 +373,20 @@ def _floor_real(t):
     division by a constant (z3 decides `div` by constants well, and to_int of to_real badly)."""
     t = z3.simplify(t)
     r = _lin_over_ints(t)
+    if r is None and t.decl().kind() == z3.Z3_OP_ADD:
+        # integer addends come out of the floor: floor(n + x) = n + floor(x)
+        ipart, rest = [], []
+        for ch in t.children():
+            rr = _lin_over_ints(ch)
+            if rr is not None and all(c.denominator == 1 for c in rr[0].values()) and rr[1].denominator == 1:
+                e = z3.IntVal(int(rr[1]))
+                for x, c in rr[0].items():
+                    e = e + int(c) * x
+                ipart.append(e)
+            else:
+                rest.append(ch)
+        if ipart and rest:
+            return z3.simplify(z3.Sum(ipart) + z3.ToInt(z3.simplify(z3.Sum(rest)) if len(rest) > 1 else rest[0]))
     if r is not None and r[0]:
         coeffs, c0 = r
         Q = 1
@@ -860,6 +874,24 @@ def m_max(*a):
         p, q = _coerce(r, x)
         r = wrap(z3.If(q > p, q, p))
     return r
+
+
+def m_min_shim(*a, **kw):
+    if kw:
+        return min(*a, **kw)
+    a = _flat_args(a)
+    if not any(isinstance(x, Sym) for x in a):
+        return min(a)
+    return m_min(a)
+
+
+def m_max_shim(*a, **kw):
+    if kw:
+        return max(*a, **kw)
+    a = _flat_args(a)
+    if not any(isinstance(x, Sym) for x in a):
+        return max(a)
+    return m_max(a)
 
 
 def _any_real(a):
